@@ -2,7 +2,7 @@ PROPS["C13"] = dict(
     harnesses=[dict(name="C13", procs_quick=4, procs_thorough=16, timeout=3400,
                     env={"ASAN_OPTIONS": "detect_leaks=0:abort_on_error=0:allocator_may_return_null=1"})],
     gens=["gen_nnconst", "gen_math", "gen_utm", "gen_gridcodes"],
-    rule=("table-driven sweep, complete in both tiers: every entry point of the table (228 public numeric members / statics of Geodesic, GeodesicExact, "
+    rule=("table-driven sweep, complete in both tiers: every entry point of the table (229 public numeric members / statics of Geodesic, GeodesicExact, "
           "GeodesicLine(Exact) in three solver configurations, Rhumb(Line) series and exact, TransverseMercator(Exact) x4, PolarStereographic, "
           "LambertConformalConic, AlbersEqualArea (northern, southern, cylindrical), Geocentric, LocalCartesian, UTMUPS, MGRS, Geohash, GARS, Georef, "
           "OSGB, AzimuthalEquidistant, Gnomonic, CassiniSoldner, Ellipsoid, AuxLatitude (all 36 conversions), EllipticFunction, PolygonArea x3, "
@@ -23,7 +23,7 @@ PROPS["C13"] = dict(
     level_text=("Theorems: the decision procedures the driver runs are sound for the contract (a call accepted by checkNaN raised no exception — or the "
                 "documented GeographicErr with nothing written — and is NaN on exactly the outputs the dependence table marks as dependent and valid on "
                 "those marked independent; an accepted throwing call left every output untouched and threw only the library's exception or bad_alloc); "
-                "the 228-row dependence table is well-formed; the Except-returning models of UTMUPS::Forward, MGRS::Forward/Reverse, Geohash, GARS, Georef, "
+                "the 229-row dependence table is well-formed; the Except-returning models of UTMUPS::Forward, MGRS::Forward/Reverse, Geohash, GARS, Georef, "
                 "OSGB return the documented INVALID marker for a NaN position and NaN for an INVALID string, and an error leaves the caller's sentinels "
                 "(structural); constructor predicates accept exactly the documented domains and the three Lambert / three Albers constructor forms agree "
                 "where their parameters coincide; NaN propagates through the binary64 primitives while C fmin/fmax provably discard it; a node accepted by "
